@@ -12,7 +12,7 @@ for i, f in enumerate(k, 1):
     if m: what = m.group(1)
     status = '' if f['status'] == 'fixed' else ' (**known, not repaired**)'
     rows.append('| %d | %s | `%s` | %s%s |' % (i, f['property'], f.get('commit', '-'), what.replace('|', '\\|').replace('\n', ' '), status))
-d = re.sub(r'\| # \| property \| commit \| what failed \|\n\|---\|---\|---\|---\|\n(\|.*\n)+', '\n'.join(rows) + '\n', d, count=1)
+d = re.sub(r'\| # \| property \| commit \| what failed \|\n\|---\|---\|---\|---\|\n(\|.*\n)+', lambda m, t='\n'.join(rows) + '\n': t, d, count=1)
 rows = ['| id | evaluations | states | distinct outcome classes | wall | exhaustive |', '|---|---|---|---|---|---|']
 for p in sorted(glob.glob('evidence/C*.json')):
     e = json.load(open(p)); c = e.get('coverage', {})
@@ -21,6 +21,6 @@ for p in sorted(glob.glob('evidence/C*.json')):
             if n in c: return c[n]
         return '?'
     rows.append('| %s | %s | %s | %s | %.1f s | %s |' % (e['property_id'], g('evaluations', 'traces_validated_against_impl'), g('states'), g('distinct_nontrivial', 'distinct_outcomes'), e.get('wall_s', 0), g('exhaustive')))
-d = re.sub(r'\| id \| evaluations \| states \| distinct outcome classes \| wall \| exhaustive \|\n\|---\|---\|---\|---\|---\|---\|\n(\|.*\n)+', '\n'.join(rows) + '\n', d, count=1)
+d = re.sub(r'\| id \| evaluations \| states \| distinct outcome classes \| wall \| exhaustive \|\n\|---\|---\|---\|---\|---\|---\|\n(\|.*\n)+', lambda m, t='\n'.join(rows) + '\n': t, d, count=1)
 open('DESIGN.md', 'w').write(d)
 print('section 7 rows:', len(k))
